@@ -27,6 +27,21 @@ class Real:
     def compile(self, src):
         return self.Cm.compile_prolog_from_string(src, Ctx)
 
+    def compile_file(self, src):
+        """the same text through the file API: written as UTF-8 bytes exactly as given (no newline translation)"""
+        import os
+        import tempfile
+        fd, path = tempfile.mkstemp(prefix='ypv-src-', suffix='.prolog')
+        try:
+            with os.fdopen(fd, 'wb') as f:
+                f.write(src.encode('utf8'))
+            return self.Cm.compile_prolog_from_file(path, Ctx)
+        finally:
+            try:
+                os.unlink(path)
+            except OSError:
+                pass
+
     def engine(self, code=None):
         yp = self.E.YP()
         if code is not None:
